@@ -245,12 +245,12 @@ pub(crate) fn unit(
                         ));
                     }
 
-                    last = Some(name);
+                    last = Some((name, prefix));
                 }
             }
             OP_POWER => {
                 let (kind, span) = match (last.take(), nodes.next_node()) {
-                    (Some(last), Some(node)) if *node.value() == NUMBER => {
+                    (Some((last, prefix)), Some(node)) if *node.value() == NUMBER => {
                         let span = node.span();
 
                         let power = match str::parse::<i32>(&source[span.range()]) {
@@ -258,7 +258,17 @@ pub(crate) fn unit(
                             Err(error) => return Err(Error::new(*span, BadNumber { error })),
                         };
 
-                        compound.update_power(last, power * current);
+                        // The unit itself has already been counted once with
+                        // the current sign, the exponent contributes the rest.
+                        let rest = match power.checked_sub(1).and_then(|p| p.checked_mul(current)) {
+                            Some(rest) => rest,
+                            None => return Err(Error::new(*span, BadArgument { argument: 1 })),
+                        };
+
+                        if rest != 0 && compound.update(last, rest, prefix).is_err() {
+                            return Err(Error::new(*span, BadArgument { argument: 1 }));
+                        }
+
                         continue;
                     }
                     (_, Some(node)) => (*node.value(), *node.span()),
